@@ -18,7 +18,12 @@ impl vstd::std_specs::convert::FromSpecImpl<PublicKey> for Did { open spec fn ob
 pub type EntryId = Oid;
 pub type RevisionId = Oid;
 #[derive(Clone, Copy, PartialEq, Eq, Debug)] pub struct Signature(pub [u8; 64]);
-#[derive(Clone, Copy, PartialEq, Eq, Debug)] pub struct RepoId(pub [u8; 20]);
+#[derive(Clone, Copy, PartialEq, Eq, Debug)] pub struct RepoId(pub Oid);
+impl std::ops::Deref for RepoId { type Target = Oid; fn deref(&self) -> (r: &Oid) ensures *r == self.0 { &self.0 } }
+impl From<Oid> for RepoId { fn from(o: Oid) -> (r: RepoId) ensures r == RepoId(o) { RepoId(o) } }
+impl vstd::std_specs::convert::FromSpecImpl<Oid> for RepoId { open spec fn obeys_from_spec() -> bool { true } open spec fn from_spec(o: Oid) -> RepoId { RepoId(o) } }
+impl std::ops::Deref for Did { type Target = PublicKey; fn deref(&self) -> (r: &PublicKey) ensures *r == self.0 { &self.0 } }
+impl Did { pub fn as_key(&self) -> (r: &PublicKey) ensures *r == self.0 { &self.0 } }
 #[derive(Clone, Copy, PartialEq, Eq, Debug)] pub struct Timestamp(pub u64);
 #[derive(Clone, PartialEq, Eq, Debug)] pub struct Author { pub id: Did }
 impl Author { pub fn public_key(&self) -> (r: &PublicKey) ensures *r == self.id.0 { &self.id.0 } }
@@ -48,13 +53,48 @@ impl Doc {
         ensures r is Ok <==> (delegate(*self, Did(*key)) && sig_ok(*key, blob, *signature))
     { unimplemented!() }
     #[verifier::external_body] pub fn from_blob(b: &Blob) -> Result<Doc, DocError> { unimplemented!() }
+    /// ASSUMED (identity::Doc::load_at): the verified document stored at a commit, with the id of its blob
+    #[verifier::external_body]
+    pub fn load_at<R: ReadRepository>(commit: Oid, repo: &R) -> (r: Result<DocAt, DocError>) ensures r is Ok ==> r->Ok_0.commit == commit { unimplemented!() }
+    #[verifier::external_body] pub fn delegates(&self) -> (r: &Delegates) ensures r.of() == *self { unimplemented!() }
 }
+pub struct Delegates { pub opaque: u64 }
+impl Delegates {
+    pub uninterp spec fn of(&self) -> Doc;
+    /// ASSUMED (Delegates::first over NonEmpty): the first delegate is a delegate
+    #[verifier::external_body] pub fn first(&self) -> (r: &Did) ensures delegate(self.of(), *r) { unimplemented!() }
+}
+/// `identity::DocAt`
+#[derive(Clone, Debug)] pub struct DocAt { pub commit: Oid, pub blob: Oid, pub doc: Doc }
+impl std::ops::Deref for DocAt { type Target = Doc; fn deref(&self) -> (r: &Doc) ensures *r == self.doc { &self.doc } }
+/// stand-in for `op.actions.into_iter()` over NonEmpty<Action> (a finite sequence; `next` pops the front)
+pub struct Actions { pub opaque: u64 }
+pub struct ActionsIter { pub opaque: u64 }
+impl Actions { #[verifier::external_body] pub fn into_iter(self) -> ActionsIter { unimplemented!() } }
+impl ActionsIter { #[verifier::external_body] pub fn next(&mut self) -> Option<Action> { unimplemented!() } }
+/// `cob::Op<Action>`
+pub struct Op { pub id: EntryId, pub actions: Actions, pub author: ActorId, pub timestamp: Timestamp }
+/// stand-in for `assert_eq!(root.commit, op.id)`: the obligation is kept
+pub fn vx_assert_commit(a: Oid, b: Oid) requires a == b {}
 /// `doc == parent.doc` (PartialEq for Doc): result arbitrary here
 #[verifier::external_body] pub fn vx_doc_eq(a: &Doc, b: &Doc) -> bool { unimplemented!() }
 pub struct Blob; pub struct DocError;
 pub mod git2 { pub struct Error; }
 pub mod git_ext { pub struct Error; }
-pub trait ReadRepository { fn blob(&self, oid: Oid) -> Result<Blob, git_ext::Error>; }
+pub trait ReadRepository {
+    /// the repository's identifier (ghost)
+    spec fn rid(&self) -> RepoId;
+    fn id(&self) -> (r: RepoId) ensures r == self.rid();
+    fn blob(&self, oid: Oid) -> Result<Blob, git_ext::Error>;
+}
+pub mod store {
+    /// `radicle::cob::store::Cob`: `from_root` only
+    pub trait Cob: Sized {
+        type Action;
+        type Error;
+        fn from_root<R: crate::ReadRepository>(op: crate::Op, repo: &R) -> Result<Self, <Self as Cob>::Error>;
+    }
+}
 pub mod cob { pub struct Entry; }
 /// ASSUMED (derive(Clone) on Revision): the clone equals the original
 #[verifier::external_body] pub fn vx_clone_revision(r: &Revision) -> (c: Revision) ensures c == *r { unimplemented!() }
@@ -167,6 +207,10 @@ pub fn vx_assert_parent(parent: Option<RevisionId>, current: RevisionId) require
 //@              final(self).revisions@.dom() == old(self).revisions@.dom(),
 //@              forall|i: RevisionId| old(self).revisions@.contains_key(i) && (#[trigger] old(self).revisions@[i]) is Some ==> final(self).revisions@[i] is Some && final(self).revisions@[i]->Some_0.verdicts == old(self).revisions@[i]->Some_0.verdicts && final(self).revisions@[i]->Some_0.blob == old(self).revisions@[i]->Some_0.blob,
 //@      { unimplemented!() }
+//@      /// stand-in for Identity::new (iterator adapters, BTreeMap::from_iter): ASSUMED (by inspection of its struct literal) to
+//@      /// take the identifier from the revision's blob and to make the revision root and current
+//@      #[verifier::external_body]
+//@      pub fn new(revision: Revision) -> (r: Self) ensures r.id == RepoId(revision.blob), r.root == revision.id, r.current == revision.id { unimplemented!() }
 //@    fn action
 //@      desugar_try
 //@      ret r
@@ -208,6 +252,18 @@ pub fn vx_assert_parent(parent: Option<RevisionId>, current: RevisionId) require
 //@        (action matches Action::RevisionEdit { revision, .. } && revision == old(self).current) ==> r is Err
 //@        # the current revision changes only to one on which a delegate of the replaced document recorded a valid signature
 //@        r is Ok ==> final(self).current == old(self).current || final(self).voted(old(self).cur().doc, final(self).current)
+//@      head
+//@        proof { ids_lawful(); }
+//@  impl store::Cob for Identity
+//@    drop op
+//@    fn from_root
+//@      ret r
+//@      body_sub assert_eq!\(root\.commit, op\.id\); => vx_assert_commit(root.commit, op.id);
+//@      ensures
+//@        # C19: an identity read from git is accepted only in the repository whose id is the blob id of its root document
+//@        r is Ok ==> r->Ok_0.id == repo.rid() //[C19]
+//@        # ... and its root and current revision are the operation itself
+//@        r is Ok ==> r->Ok_0.root == op.id && r->Ok_0.current == op.id
 //@      head
 //@        proof { ids_lawful(); }
 //@end
